@@ -44,7 +44,7 @@ def model_check(ctx):
     # non-vacuity: each deviation is rejected by the invariant it is about
     expect = dict(bisect_right={"AgreesWithCarbon"}, sort_pos_only={"AgreesWithCarbon", "OrderIndependent"},
                   stale_ring=STALE, stale_ring_on_same_host=STALE, no_wrap={"AgreesWithCarbon"},
-                  mod_n={"AddMovesOnlyToNew", "RemoveMovesOnlyOwned", "UpdateMovesOnlyBetween", "AgreesWithCarbon"})
+                  mod_n={"AddMovesOnlyToNew", "RemoveMovesOnlyOwned", "UpdateMovesOnlyBetween", "AgreesWithCarbon", "MovesB"})
     caught = {}
     if ctx.quick():
         expect = {k: expect[k] for k in ("bisect_right", "sort_pos_only", "stale_ring_on_same_host")}
